@@ -73,6 +73,11 @@ class Models:
             "std::vec::Vec::<T>::with_capacity": self.m_vec_new,
             "std::collections::BTreeSet::<T, A>::insert": self.m_set_insert,
             "std::collections::HashMap::<K, V, S, A>::insert": self.m_map_insert,
+            "std::collections::HashMap::<K, V, S, A>::remove": lambda e, st, a: self.m_coll_shrink(e, st, a, "remove"),
+            "std::collections::BTreeSet::<T, A>::remove": lambda e, st, a: self.m_coll_shrink(e, st, a, "remove"),
+            "std::collections::HashMap::<K, V, S, A>::clear": lambda e, st, a: self.m_coll_shrink(e, st, a, "clear"),
+            "std::collections::BTreeSet::<T, A>::clear": lambda e, st, a: self.m_coll_shrink(e, st, a, "clear"),
+            "std::vec::Vec::<T, A>::clear": lambda e, st, a: self.m_coll_shrink(e, st, a, "clear"),
             "std::collections::HashMap::<K, V, S, A>::entry": self.m_map_entry,
             "std::collections::hash_map::Entry::<'a, K, V, A>::and_modify": self.m_entry_and_modify,
             "std::collections::hash_map::Entry::<'a, K, V, A>::or_insert": self.m_entry_or_insert,
@@ -711,6 +716,22 @@ class Models:
             st.colls[c.seq] = st.colls.get(c.seq, ()) + ((list(st.pc), v, st.exist, "set-insert"),)
             return [(st, "val", BoolV(flit(("b", self.I.fresh("inserted"), True))))]
         return None
+
+    def m_coll_shrink(self, e, st, a, how):
+        """remove(key) / clear() on a builder's collection: recorded like an insertion (the setter rules read the record);
+        the elements of a collection with such a record are not modelled (loops.built_elem fails closed)"""
+        c = a[0]
+        if isinstance(c, RefV):
+            c = self.I.read_loc(st, c.key, c.path)
+        if not isinstance(c, CollV):
+            return None
+        v = a[1] if len(a) > 1 else UNIT
+        if isinstance(v, RefV):
+            v = self.I.read_loc(st, v.key, v.path)
+        st.colls[c.seq] = st.colls.get(c.seq, ()) + ((list(st.pc), v, st.exist, how),)
+        if how == "clear":
+            return [(st, "val", UNIT)]
+        return [(st, "val", Opaque("Option<V>") if "HashMap" in e["fn"] else BoolV(flit(("b", self.I.fresh("removed"), True))))]
 
     def m_map_insert(self, e, st, a):
         c, k, v = a
